@@ -18,7 +18,7 @@ CLAIMS = {
           "values of --skip-failed and threads; invariants FinishedComplete/FinishedAllowed/AbortJustified/TallyOK and liveness "
           "RightEnding. Real runs with faults injected at the entry of the three per-unit callers (every subset up to a bound) "
           "are validated as traces: with --skip-failed the run finishes with exactly the other units' peptides and the tally; "
-          "without it the run ends with an error and no FASTA."),
+          "without it the run ends with an error and no FASTA. Two inputs carry a transcript whose variant series cannot be loaded (the specification's invalid set), last / in the middle of the annotation order."),
     note=("Failures are injected exceptions at unit entry (guarded hook), not organic crashes; raw circRNA peptide sets come "
           "from a reference run in which main units fail."),
     technique="TLA+ state machine + TLC; fault-injection trace validation", ref='6 C07'),
@@ -132,7 +132,7 @@ CLAIMS['C14'] = dict(
           "the gene sequence; VepTrace has TLC check, for every position from one base before to one base after each transcript of "
           "random annotations (both strands) and every event kind, that the record the real VEPRecord.convert_to_variant_record "
           "emits has REF = gene sequence and denotes exactly the gene re-extracted from the edited chromosome, that rejections "
-          "only happen at the transcript boundary and that events strictly inside are accepted. REDItools rows with counts at and "
+          "only happen at the transcript boundary and that events strictly inside are accepted; every row is judged a second time through the real parseVEP command line (one file with the rows of all transcripts in random order, outcome read off the emitted GVF). REDItools rows with counts at and "
           "around every threshold must give one record per (exonic transcript, accepted substitution) at the mapped gene position."),
     note="2-base substitutions (indistinguishable from insertions in VEP's columns) are outside the property; REDItools REF/ALT strand conventions are not checked.",
     technique="TLA+ definitional spec; TLC validation of recorded parser outputs, exhaustive over positions per annotation", ref='6 C14')
